@@ -12,7 +12,7 @@ pub fn check(tier: Tier) -> Check {
         Part::new("C08/acks", json!({"depth": tier.pick(4, 5), "pids": if tier == Tier::Quick { vec![65535] } else { vec![1, 65535] }}), 0, tier.pick(40, 600)),
     ];
     let mut parts = parts;
-    parts.push(Part::new("C08/acks", json!({"depth": 3, "pids": [1, 65535], "flavour": 1}), 0, tier.pick(40, 300)));
+    parts.push(Part::new("C08/acks", json!({"depth": 3, "pids": [1, 65535], "flavour": 1, "own_rm": 20}), 0, tier.pick(40, 300)));
     // the second connection of a Context whose first one broke in the middle of an inbound packet (3) /
     // while an acknowledgement was being written (4): exactly one acknowledgement per packet here too
     parts.push(Part::new("C08/acks", json!({"depth": tier.pick(2, 3), "pids": [4242, 1], "flavour": 3}), 0, tier.pick(40, 300)));
@@ -24,7 +24,7 @@ pub fn check(tier: Tier) -> Check {
     parts.push(Part::new("C08/tiny", json!({"depth": tier.pick(3, 4)}), 0, tier.pick(40, 300)));
     // value flavour (DESIGN 4): the same exploration with requests / inbound messages of unusual content
     parts.push(Part::new("C08/acks", json!({"depth": tier.pick(3, 4), "pids": [1, 65535], "vals": 1}), 0, tier.pick(40, 300)));
-    parts.push(Part::new("C08/acks", json!({"depth": tier.pick(3, 4), "pids": [1, 65535], "vals": 1, "flavour": 1}), 0, tier.pick(40, 300)));
+    parts.push(Part::new("C08/acks", json!({"depth": tier.pick(3, 4), "pids": [1, 65535], "vals": 1, "flavour": 1, "own_rm": 20}), 0, tier.pick(40, 300)));
     Check {
         also_rel: false,
         property: "C08",
